@@ -70,7 +70,78 @@ def make_specs(seed, quick, volume=1):
                             ests.append(("lme", "fse" if salt % 2 else "fre", "pgdb", "eq_ineq"))
                         specs.append({"seed": seed, "salt": salt, "sys": sysname, "kind": kind, "para": para, "data": data,
                                       "shots": shots, "m": m, "eps_proj": eps_proj, "ests": ests})
+    # --- cells every run contains
+    # (a) small optimiser budgets: the estimate and every recorded iterate must be physical whatever max_iteration_optimization is
+    nb = 1 if quick else 3
+    for rep in range(nb * volume):
+        for kind in ("qst", "qpt", "povmt"):
+            for para in (True, False):
+                salt += 1
+                ests = [("lme", ["fse", "fre"][(salt + j) % 2], al, "eq_ineq", bud)
+                        for j, al in enumerate(("pgdb", "pgdm", "fista")) for bud in (2, 5, 10)]
+                specs.append({"seed": seed, "salt": salt, "sys": "1qubit", "kind": kind, "para": para, "data": "few",
+                              "shots": int(rnd.choice([1, 3, 5])), "m": 3 if kind == "povmt" else None, "eps_proj": None,
+                              "ests": ests, "noseq": True})
+    # (b) exact data of 3- and 4-outcome instruments / POVMs with the dependent-element parametrisation, interior truth
+    for rep in range(nb * volume):
+        for kind, m in (("qmpt", 3), ("qmpt", 2), ("povmt", 3), ("povmt", 4)):
+            for para in (True, False):
+                salt += 1
+                specs.append({"seed": seed, "salt": salt, "sys": "1qubit", "kind": kind, "para": para, "data": "exact_i",
+                              "shots": 1000, "m": m, "eps_proj": None,
+                              "ests": [("lme", "fse", "pgdb", "eq_ineq"), ("lme", "fre", "pgdb", "eq_ineq")], "noseq": True})
+    # (c) the installed projections leave physical points where they are
+    for rep in range((2 if quick else 6) * volume):
+        for sysname in (["1qubit"] if quick else ["1qubit", "1qutrit"]):
+            for kind in L.KINDS:
+                if sysname == "1qutrit" and kind in ("qpt", "qmpt") and rep > 0:
+                    continue
+                for para in (True, False):
+                    salt += 1
+                    m = None if kind in ("qst", "qpt") else 2 + (salt + rep) % 3
+                    if sysname == "1qutrit" and kind == "qmpt":
+                        m = 2 + rep % 2
+                    specs.append({"type": "fixpoint", "seed": seed, "salt": salt, "sys": sysname, "kind": kind, "para": para,
+                                  "m": m, "eps_proj": [None, 1e-10][salt % 2], "data": "fixpoint", "shots": 0, "ests": []})
     return specs
+
+
+def eval_fixpoint(spec):
+    """the projection installed by set_constraint_from_standard_qt_and_option is the identity on the physical set"""
+    out = {"viol": [], "cases": [], "counts": {}, "t": time.time()}
+    g = gen(spec["seed"], spec["salt"])
+    kind = spec["kind"]
+    qt, c, m = L.make_qt(g, kind, spec["sys"], spec["para"], m=spec["m"], eps_proj_physical=spec["eps_proj"])
+    delta = math.sqrt(spec["eps_proj"] or 1e-14)
+    tol = 20 * math.sqrt(m or 1) * delta + 1e-9
+    out["counts"][f"fixpoint {spec['sys']} {kind} para={spec['para']} m={m}"] = 1
+    for flags in ((True, True), (True, False), (False, True)):
+        for aname in ("pgdb", "pgdm", "fista"):
+            A, AO = L.ALGOS[aname]
+            algo = A()
+            algo.set_constraint_from_standard_qt_and_option(qt, AO(on_algo_eq_constraint=flags[0], on_algo_ineq_constraint=flags[1]))
+            for cls in ("interior", "boundary", "interior"):
+                obj = L.true_object(g, kind, c, m, cls)
+                v = obj.convert_stacked_vector_to_var(c, obj.to_stacked_vector(), on_para_eq_constraint=spec["para"])
+                try:
+                    w, _ = L.quiet(algo.func_proj, np.array(v, dtype=float).copy())
+                except Exception as e:  # noqa
+                    out["viol"].append({"signature": f"C10/func-proj/{kind}/raises", "what": f"{type(e).__name__}: {str(e)[:200]}",
+                                        "replay": {"kind": "cell", "spec": spec}})
+                    continue
+                moved = float(np.linalg.norm(np.asarray(w) - v))
+                out["cases"].append(((spec["salt"], flags, aname, cls), True,
+                                     {"op": "func_proj fixed point", "kind": kind, "m": m, "para": spec["para"], "flags": list(flags),
+                                      "moved": moved}))
+                if moved > tol:
+                    out["viol"].append({"signature": f"C10/func-proj/{kind}/moves-physical-point",
+                                        "what": f"{aname} flags={flags} {spec['sys']} {kind} m={m} para={spec['para']} ({cls} object): "
+                                                f"|func_proj(var) - var| = {moved:.3e} > {tol:.1e}",
+                                        "replay": {"kind": "cell", "spec": spec}})
+            if flags != (True, True):
+                break          # the single-constraint projections do not depend on the algorithm class
+    out["t"] = time.time() - out["t"]
+    return out
 
 
 def setup(spec):
@@ -94,7 +165,9 @@ def tolerances(spec, m):
 
 
 def est_name(est):
-    return "ple-" + est[1] if est[0] == "ple" else f"{est[1]}-{est[2]}-{est[3]}"
+    if est[0] == "ple":
+        return "ple-" + est[1]
+    return f"{est[1]}-{est[2]}-{est[3]}" + (f"-budget{est[4]}" if len(est) > 4 and est[4] else "")
 
 
 def run_est(qt, empi, est):
@@ -102,12 +175,15 @@ def run_est(qt, empi, est):
     if est[0] == "ple":
         r, msg = L.run_ple(qt, empi, est[1])
     else:
-        r, msg, _, _, _ = L.run_lme(qt, empi, est[1], est[2], mode_proj_order=est[3])
+        kw = {"max_iteration_optimization": int(est[4])} if len(est) > 4 and est[4] else {}
+        r, msg, _, _, _ = L.run_lme(qt, empi, est[1], est[2], mode_proj_order=est[3], **kw)
     return r.estimated_qoperation, np.array(r.estimated_var), r, msg
 
 
 def eval_spec(spec):
     """evaluate the property on one cell; pure function of the spec (replayable)"""
+    if spec.get("type") == "fixpoint":
+        return eval_fixpoint(spec)
     out = {"viol": [], "cases": [], "counts": {}, "t": time.time()}
 
     def cnt(k):
@@ -167,7 +243,9 @@ def eval_spec(spec):
                 tol = None
             # POVM / measurement-process tomography with on_para_eq_constraint=True: the last element is a dependent
             # variable, the installed projection is a nearest-point map for a different metric than the gradient's (D13)
-            dep = spec["para"] and fam == "pgdb" and (kind == "qmpt" or (kind == "povmt" and (m or 0) > 2))
+            # (established for the relative-entropy losses on exact data of rank-deficient objects only)
+            dep = spec["para"] and fam == "pgdb" and (kind == "qmpt" or (kind == "povmt" and (m or 0) > 2)) \
+                and data == "exact_b" and est[1] in ("re", "fre")
             cls = kind + ("-dependent-element-parametrisation" if dep else "")
             if tol is not None and dist > tol:
                 viol(f"C10/{fam}/{cls}/exact-data-not-recovered",
@@ -203,18 +281,18 @@ def eval_spec(spec):
             le, li = L.defects(lin)
             if le <= 1e-12 and li >= 1e-9 and np.linalg.norm(lin.to_stacked_vector() - obj.to_stacked_vector()) > 1e-6:
                 viol(f"C10/ple/{kind}/moves-physical-linear-estimate", f"{name}: physical linear estimate was changed", est)
-        elif est[2] == "pgdb" and r.detailed_results:
+        elif r.detailed_results:
             xs = r.detailed_results[0].x
             idx = sorted(set(np.linspace(0, len(xs) - 1, min(len(xs), 12)).astype(int).tolist()))
             tmpl = qt._template_qoperation
             for i in idx:
                 e2, m2 = L.defects(tmpl.generate_from_var(xs[i]))
                 if e2 > tol_eq or m2 < -tol_ineq:
-                    viol(f"C10/pgdb/{kind}/iterate-infeasible",
+                    viol(f"C10/{fam}/{kind}/iterate-infeasible",
                          f"{name}: iterate {i}/{len(xs) - 1} eq defect {e2:.2e} min eig {m2:.2e}", est)
                     break
     # --- a sequence of data sets is estimated element by element (same estimator objects reused across the sequence)
-    if data == "few" and spec["sys"] == "1qubit" and kind != "qmpt":
+    if data == "few" and spec["sys"] == "1qubit" and kind != "qmpt" and not spec.get("noseq"):
         empi2 = L.fewshot_data(g, qt, true, max(1, spec["shots"] // 2 + 1))
         for est in [tuple(e) for e in spec.get("seq_ests", spec["ests"][1:3])]:
             name = est_name(est)
@@ -297,6 +375,10 @@ def replay(ctx, data):
         print("nothing to re-execute for this replay kind"); return 1
     out = eval_spec(r["spec"])
     spec = r["spec"]
+    if spec.get("type") == "fixpoint":
+        for v in out["viol"]:
+            print("  still failing:", v["signature"], "-", v["what"])
+        return 1 if out["viol"] else 0
     g, qt, c, m, true, empi = setup(spec)
     for est in spec["ests"]:
         try:
